@@ -41,6 +41,9 @@ def generate(seed, tier):
     r = P.rng_for(seed)
     scfg = P.gen_state_cfg(r, type_weights=(1, 1, 2), max_nv=4, max_nh=4, max_na=3, scales=(0.1, 1.0, 1.0, 5.0, 30.0), custom_p=0.0)
     nv = scfg["nv"]
+    if r.random() < 0.06:
+        scfg["wells"] = r.choice([8.0, 10.0, 12.0])  # metastable two-well parameters (world.build_state)
+    p_long = 0.3 if scfg.get("wells") else 0.03
     nops = r.randint(3, 12)
     ops = []
     for j in range(nops):
@@ -52,7 +55,7 @@ def generate(seed, tier):
             # the public per-batch gradient method starts its negative-phase chains from the caller's rows
             ops.append({"op": "cbg", "k": r.choice([1, 2, 3]), "rows": r.randint(1, 5), "sub": P.s64(r), "dseed": P.s64(r)})
             continue
-        k = r.choice(KS) if r.random() > 0.03 else r.choice(KS_LONG)
+        k = r.choice(KS) if r.random() > p_long else r.choice(KS_LONG)
         prev = [i for i, o in enumerate(ops) if o["op"] == "sample"]
         sk = r.random()
         if sk < 0.3 or (sk < 0.55 and not prev):
@@ -448,6 +451,10 @@ def shrink(plan):
     if c["scale"] != 1.0:
         q = copy.deepcopy(plan)
         q["config"]["state"]["scale"] = 1.0
+        out.append(q)
+    if c.get("wells"):
+        q = copy.deepcopy(plan)
+        q["config"]["state"].pop("wells")
         out.append(q)
     if plan["config"].get("twin_pseed") is not None:
         q = copy.deepcopy(plan)
